@@ -9,7 +9,7 @@
    [sent_req s i t k h]: a request with msg id i was written by call k of caller t, h = hints declared.
    [EDisp i v] in the log: the receive loop took an rpc_result / rpc_error for req_msg_id = i carrying v. *)
 From Coq Require Import ZArith List Bool.
-From MTV Require Import Client.Model Client.StepLemmas Client.SeqNo Client.Routing Client.Examples.
+From MTV Require Import Client.Model Client.StepLemmas Client.SeqNo Client.Routing Client.Origin Client.Examples.
 Import ListNotations.
 Open Scope Z_scope.
 
@@ -31,6 +31,14 @@ Theorem C09_routing : forall ls s, run init ls = Some s ->
   NoDup (map ret_call (rets s)).
 Proof. exact routing. Qed.
 Print Assumptions C09_routing.
+
+(* ... and a result the receive loop dispatched (EDisp) is the rpc_result / rpc_error body of a
+   message the server really sent: a frame g injected by an LSrv label of the history, or a message
+   nested in g through msg_container / gzip_packed ([inside]); [result_of] opens gzip_packed. *)
+Theorem C09_results_from_server : forall ls s req v, run init ls = Some s -> In (EDisp req v) (elog s) ->
+  exists g sid seq b, In (LSrv g) ls /\ inside (sid, seq, b) g /\ result_of b = Some (req, v).
+Proof. exact origin. Qed.
+Print Assumptions C09_results_from_server.
 
 (* Non-vacuity: in [ex_completes] both calls return, each its own payload, the vector one typed. *)
 Example C09_example : exists s, run init ex_labels = Some s /\
